@@ -374,6 +374,24 @@ func c09Suite(c *core.Collector, seed uint64, batch int, conns, nframes int) {
 			}
 		}(i)
 	}
+	if batch == 0 {
+		// one connection that carries far more data than any per-connection block or ring a server may keep (1 MB of frames):
+		// the messages of its first seconds are still what they were when the last ones have arrived
+		wg.Add(1)
+		go func() {
+			defer wg.Done()
+			viol, incon, n, wit := c09Conn(srv, 990, seed, 12000)
+			c.Evals(int64(n))
+			c.Count("messages_rechecked_after_close", int64(n))
+			c.Count("messages_on_one_long_connection", int64(n))
+			if incon {
+				c.Inconclusive()
+			}
+			for _, v := range viol {
+				c.Violate(v[0], v[1], wit)
+			}
+		}()
+	}
 	for i := 0; i < 4*conns; i++ {
 		wg.Add(1)
 		go func(i int) {
